@@ -149,7 +149,18 @@ def options_provenance(run, ctx):
             elif len(run.samples) < 30:
                 run.samples.append({"rule": "FLOW/options-origin", "where": where, "verdict": "ok",
                                     "obligation": "options argument of %s called from %s originates at %s" % (callee_s, cs, sorted(og))})
-    run.ok(fam, label, "src", n, "every options argument of compile_inner / vm::run traces back to RegexBuilder::new / Regex::new (debug helpers excepted)")
+    # the debug helpers that manufacture default options must not be used by the library itself
+    for helper in DEBUG_API:
+        hp = [p for p in ctx.cg.bodies if strip_generics(p) == helper]
+        for h in hp:
+            for caller, bi, t in pv.callers.get(h, []):
+                cs = strip_generics(caller)
+                if cs in DEBUG_API:
+                    continue
+                n += 1
+                run.violation(fam, label, "debug-helper/%s/%s" % (helper, cs), "%s:%d" % (t["span"]["file"], t["span"]["line"]),
+                              "%s (which runs with RegexOptions::default()) is called from %s: the user's options (backtrack_limit, delegate limits, syntax) would be ignored there" % (helper, cs))
+    run.ok(fam, label, "src", n, "every options argument of compile_inner / vm::run traces back to RegexBuilder::new / Regex::new (debug helpers excepted and unused by the library)")
 
 
 def option_consumers(run, ctx):
